@@ -14,9 +14,19 @@ S2C: (codec) the TLC-enumerated header table against Tornado's frame writer (_wr
      (b) every permitted frame sequence of WsReceiver up to length L (boundary lengths 0, 1, 125,
      126, 65535, 65536, text/binary, plain/compressed, cut in pieces, pings/pongs/close in the
      gaps) fed as bytes into the real receiver in both roles.
+     In the pair set-up the harness is also a conformant permessage-deflate peer: with zlib (opaque
+     codec) it checks that every frame a real sender wrote inflates, under the parameters
+     negotiated for that side (window bits; fresh context per message under no_context_takeover),
+     to the message the application wrote, and in the `recompress` variant forwards messages
+     re-deflated by its own context-keeping compressor.
 C2S: seeded random sessions on the real pair (more messages, random content, compressible and
      not): the frames the real writers put on the wire and the deliveries are validated by TLC
      against Trace_WsChannel (header bytes decoded by the TLA+ codec).
+
+Binding demonstrated in a scratch worktree (notes/ws.md): a 126-byte payload written with the
+7-bit length form, 65535 written with the 64-bit form, and an inverted no_context_takeover
+flag were tried; the last one was first missed (both real endpoints mutated consistently) and
+led to the conformant-peer strengthening above, which also exposed F55ws on the unchanged tree.
 """
 import hashlib
 import os
@@ -140,7 +150,7 @@ def expand_chan(paths, seed, nvar):
         for k in range(nvar):
             e = dict(extra)
             e["variant"] = {"grid": (h % 7 + k) % 7, "mode": ("cb", "read")[(h >> 3) & 1], "seg": (h >> 5) % 4,
-                            "seed": h % 100000 + k}
+                            "recompress": bool((h >> 7) & 1), "seed": h % 100000 + k}
             out.append((e, path))
     return out
 
@@ -150,7 +160,7 @@ def chan_replayer(extra, path):
     cfg, v = extra["cfg"], extra["variant"]
     c = cat(_CHAN_CAT)
     with LogCapture():
-        real = W.PairReal(cfg, c, grid=v["grid"], mode=v["mode"], seed=v["seed"])
+        real = W.PairReal(cfg, c, grid=v["grid"], mode=v["mode"], seed=v["seed"], recompress=v.get("recompress", False))
         try:
             pinged = {"c2s": False, "s2c": False}
             for i, s in enumerate(path):
@@ -164,13 +174,16 @@ def chan_replayer(extra, path):
                     err = type(e).__name__
                     obs = canon(real.proj())
                 exp = {"c2s": [c.canon_id(x) for x in s["exp"]["c2s"]], "s2c": [c.canon_id(x) for x in s["exp"]["s2c"]]}
-                if obs != exp or err != "none":
+                if obs != exp or err != "none" or real.wire_errors:
                     a = s["args"]
                     sig = {"setup": "pair", "act": s["act"], "deflate": cfg["deflate"], "err": err,
+                           "wire": sorted(set(w.split(":")[0].split("(")[0].strip() for w in real.wire_errors)),
+                           "recompress": v.get("recompress", False),
                            "pieces": a[1] if s["act"] == "transfer" else None,
                            "ctl": a[2] if s["act"] == "transfer" else None,
                            "dir": a[0], "delivered_differs": obs != exp}
-                    return {"step": i, "act": s["act"], "args": s["args"], "exp": exp, "obs": obs, "variant": v, "sig": sig}
+                    return {"step": i, "act": s["act"], "args": s["args"], "exp": exp, "obs": obs, "variant": v,
+                            "wire_errors": real.wire_errors[:5], "sig": sig}
             return None
         finally:
             real.close()
@@ -210,7 +223,8 @@ def random_session(job):
     ev = []
     words = ["alpha", "béta", "gamma ", "δelta", "\u4e2d\u6587", " ", "0123456789", "\n"]
     with LogCapture():
-        pair = W.PairReal(cfg, sc, grid=rng.randrange(7), mode=rng.choice(["cb", "read"]), seed=seed, record=rec)
+        pair = W.PairReal(cfg, sc, grid=rng.randrange(7), mode=rng.choice(["cb", "read"]), seed=seed, record=rec,
+                          recompress=rng.random() < 0.5)
         try:
             last = {"c2s": [], "s2c": []}
             pending = {"c2s": 0, "s2c": 0}
@@ -257,6 +271,8 @@ def random_session(job):
                         ev.append({"a": "deliver", "args": [d], "obs": obs})
                     pending[d] = 0
                 last = {"c2s": list(obs["c2s"]), "s2c": list(obs["s2c"])}
+            if pair.wire_errors:       # zlib-level conformance of the real sender: not a spec action, TLC rejects
+                ev.append({"a": "error:wire", "args": [pair.wire_errors[0][:200]], "obs": pair.proj()})
             return {"id": tid, "cfg": cfg, "negotiated": pair.negotiated, "ev": ev}
         finally:
             pair.close()
@@ -265,7 +281,11 @@ def random_session(job):
 def session_sig(t, bad, l):
     if not bad:
         return {}
-    return {"setup": "session", "deflate": t["cfg"]["deflate"], "dir": bad["args"][0] if bad.get("args") else None}
+    sig = {"setup": "session", "deflate": t["cfg"]["deflate"], "dir": bad["args"][0] if bad.get("args") else None}
+    if bad.get("a") == "error:wire":
+        sig["dir"] = None
+        sig["wire"] = [bad["args"][0].split(":")[0].split("(")[0].strip()]
+    return sig
 
 
 def _mc(ctx, *a, **kw):
